@@ -269,17 +269,35 @@ func safeRun(r Replayer, b Behaviour, opt *Options) *Failure {
 		}()
 		done <- r(b, opt)
 	}()
-	select {
-	case f := <-done:
-		return f
-	case <-time.After(hangTimeout):
-		atomic.AddInt32(&hangs, 1)
-		return &Failure{Step: -1, Sig: "a library call did not return (hang / endless loop)", Got: "no reply within " + hangTimeout.String()}
+	// A behaviour is not abandoned because it is slow (the host may be heavily loaded): it is abandoned when
+	// ONE library call made through callPanics has been in flight for callTimeout, or - for adapters that call
+	// the library directly - when the whole (small) behaviour has not finished after behaviourTimeout.
+	start := time.Now()
+	for {
+		select {
+		case f := <-done:
+			return f
+		case <-time.After(time.Second):
+		}
+		stuck := false
+		inflight.Range(func(_, v any) bool {
+			if time.Since(v.(time.Time)) > callTimeout {
+				stuck = true
+			}
+			return true
+		})
+		if stuck || time.Since(start) > behaviourTimeout {
+			atomic.AddInt32(&hangs, 1)
+			return &Failure{Step: -1, Sig: "a library call did not return (hang / endless loop)",
+				Got: fmt.Sprintf("no reply after %s", time.Since(start).Round(time.Second))}
+		}
 	}
 }
 
 var hangs int32
-var hangTimeout = 20 * time.Second
+var callTimeout = 45 * time.Second
+var behaviourTimeout = 6 * time.Minute
+var hangTimeout = callTimeout // used by the driver watchdog
 
 func firstLine(s string) string {
 	for i := 0; i < len(s); i++ {
